@@ -56,7 +56,7 @@ PROPS["C10"] = {
     "rule": "rapid-generated trees (<=14 nodes, 1..2 roots, symlinks, special files) x 1..3 fake extractors x 0..2 standalone extractors x 0..2 detectors; per tree all boundary limits and all cancellation points are enumerated; one evaluation per (tree, limit or cancellation point); non-trivial = the limit is within +-1 of the quantity it bounds, or the cancellation point has work remaining after it; distinct by (scenario hash, mode, parameter). Image leg: generated layer tars with file sizes in {L-1, L, L+1, 2L} for byte limits L",
     "assumptions": ["'the tree holds more inodes than the limit' is measured by the number of inodes the unlimited scan visits",
                     "after cancellation inside an Extract call, further extractors may still run on the same file (the property forbids extraction on any FURTHER file)"],
-    "legs": [{"fam": "scanfam", "run": "^TestC10_scan$"}],
+    "legs": [{"fam": "scanfam", "run": "^TestC10_scan$"}, {"fam": "layerfam", "run": "^TestC10_image$"}],
     "timeout": {"quick": 900, "thorough": 3000},
 }
 
